@@ -150,13 +150,16 @@ class ModeTarget(object):
         return self.cc(5, 0x20, 0x00)
 
 
-def modepages(chk):
+def modepages(chk, mini=False):
+    """mini: one exhaustive configuration, a spread of its behaviours, no simulation (used by harness.selftest)"""
     from ..core import bindings
     ev = chk.ev
     beh = []
     cfgs = ["MC_ModePages_iscsi.cfg", "MC_ModePages_sgio.cfg", "MC_ModePagesS_iscsi.cfg", "MC_ModePagesS_sgio.cfg"]
     if not chk.quick:
         cfgs += ["MC_ModePages3_iscsi.cfg", "MC_ModePages3_sgio.cfg"]
+    if mini:
+        cfgs = cfgs[:2]
     for cfg in cfgs:
         r = tlc.run("ModePages", cfg, workers=8, timeout=1800, coverage=cfg.startswith("MC_ModePages_"), name="c13mp")
         if not r.ok:
@@ -173,12 +176,14 @@ def modepages(chk):
             b = pre + random.Random(chk.seed).sample(b, 600 - len(pre))
         beh += b
         r.prints = []
-    for cfg in ("Sim_ModePages_iscsi.cfg", "Sim_ModePages_sgio.cfg"):
+    for cfg in (() if mini else ("Sim_ModePages_iscsi.cfg", "Sim_ModePages_sgio.cfg")):
         rs = tlc.run("ModePages", cfg, workers=1, timeout=1800, name="c13mpsim", simulate="num=%d" % (60 if chk.quick else 4000),
                      extra=["-depth", "40", "-seed", str(chk.seed + 23)])
         if rs.violated:
             raise tlc.TLCFailure("ModePages.tla (simulation) violated %s" % rs.violated)
         beh += [v for t, v in rs.prints if t == "MODEPAGES"]
+    if mini:
+        beh = beh[::max(1, len(beh) // 160)]
     fs, fi = bindings.install(True, True)
     d = bindings.shm_dir("c13m")
     path = os.path.join(d, "sg2")
